@@ -92,6 +92,26 @@ def tdh_after_done(w, i, ws, r):
     return w[9] == 0xE8 and i >= 2 and ws[i - 1][1][9] == 0xF0 and ws[i - 1][1][8] & 1 and not (w[1] >> 6) & 1
 
 
+def _prev_tdh_bc(ws, i):
+    prev = [x for _p, x in ws[:i] if x[9] == 0xE8]
+    return ((prev[-1][2] | (prev[-1][3] << 8)) & 0xFFF) if prev else None
+
+
+def tdh_after_done_late(w, i, ws, r):
+    """a TDH behind a complete packet whose previous TDH lies in the second half of the orbit (bunch crossing >= 1783)"""
+    pbc = _prev_tdh_bc(ws, i)
+    return tdh_after_done(w, i, ws, r) and pbc is not None and pbc >= 1783
+
+
+def tdh_far_smaller_bc(rng, w, ctx):
+    """more than half an orbit back: within one heartbeat frame the bunch crossing cannot wrap, the rule is broken all the same (seed C02-G)"""
+    pbc = _prev_tdh_bc(ctx["ws"], ctx["i"])
+    nbc = rng.choice([0, 1, pbc - 1782, pbc - 1783, rng.randrange(0, pbc - 1781)])
+    w[2] = nbc & 0xFF
+    w[3] = (w[3] & 0xF0) | (nbc >> 8)
+    return w
+
+
 def cont_tdh(w, i, ws, r):
     return w[9] == 0xE8 and (w[1] >> 6) & 1
 
@@ -110,7 +130,10 @@ def tdh_smaller_bc(rng, w, ctx):
     pbc = (prev[-1][2] | (prev[-1][3] << 8)) & 0xFFF
     if pbc == 0:
         return None
-    nbc = rng.randrange(0, pbc)
+    # any smaller value breaks the rule: a step back of one, of half an orbit and more (1781 / 1782 / 1783), to 0
+    nbc = rng.choice([rng.randrange(0, pbc), pbc - 1, 0, max(0, pbc - 1781), max(0, pbc - 1782), max(0, pbc - 1783), pbc // 2])
+    if nbc >= pbc:
+        nbc = pbc - 1
     w[2] = nbc & 0xFF
     w[3] = (w[3] & 0xF0) | (nbc >> 8)
     return w
@@ -226,6 +249,7 @@ CATALOGUE = {
     "tdh continuation with other bc": (word_mut(cont_tdh, setb(2, xor=1)), [441], RUN_ITS),
     "tdh continuation set after complete packet": (word_mut(tdh_after_done, setb(1, orv=0x40)), [42], RUN_ITS),
     "tdh bc smaller after complete packet": (word_mut(tdh_after_done, tdh_smaller_bc), [440], RUN_ITS),
+    "tdh bc far smaller after complete packet (second half of the orbit)": (word_mut(tdh_after_done_late, tdh_far_smaller_bc), [440], RUN_ITS),
     "tdh orbit differs from rdh": (word_mut(first_tdh_of_page, setb(4, xor=1)), [444], RUN_ITS),
 }
 RUNNING_ONLY = {"running: pages_counter + 1", "running: same orbit after stop", "running: orbit changes inside HBF", "running: trigger changes inside HBF"}
